@@ -219,7 +219,7 @@ INVALID = {
     'overflow': ['clip', 'SATURATE', 1, None, 'Wrap', ' wrap'], 'rounding': ['round', 'nearest', 3, None, 'Floor', 'trunc '], 'shifting': ['grow', 0, 'Expand', 'TRUNC'],
     'op_method': ['fast', 1, 'RAW', 'Repr'], 'op_input_size': ['big', 2, 'Best', 'SAME'], 'op_sizing': ['tight', 5, 'Optimal', 'same '],
     'const_op_sizing': ['tight', 5, 'Same', 'LARGEST'], 'array_output_type': ['list', 1, 'FXP', 'Array'],
-    'array_op_method': ['fast', 0, 'Raw', 'REPR'], 'dtype_notation': ['R', 3, 'q', 'FXP'], 'n_word_max': [0, -1, 'x', 2.5], 'max_error': [-1, 'x'],
+    'array_op_method': ['fast', 0, 'Raw', 'REPR'], 'dtype_notation': ['R', 3, 'q', 'FXP'], 'n_word_max': [0, -1, 'x', 2.5, float('nan'), None], 'max_error': [-1, 'x', 0, float('nan'), np.float64('nan'), -0.0, None],
     'op_out': [5, 'x'], 'op_out_like': [5, 'x'], 'array_op_out': [5], 'array_op_out_like': ['x'],
 }
 
